@@ -27,7 +27,10 @@ MANIFEST = {
             "a hand-written Gallina model of the failfast/shouldStop/stop plumbing of real.py, tied to /repo on every run by differential execution of "
             "model and real classes inside coqc, with status-word tables regenerated from the live code; plus "
             "python -m testtools.run subprocess samples for the exit status (the status the operating system "
-            "reports, including runs with 255 / 256 / 257 / 512 problems). Calls from several threads, each through "
+            "reports, including runs with 255 / 256 / 257 / 512 problems, and runs in which few or no tests are started: "
+            "nothing loaded, a --load-list selecting nothing / only the failing / only the passing test, classes and "
+            "methods skipped by decorator, everything skipped, a failing setUpClass - through python -m testtools.run "
+            "and through TestProgram). Calls from several threads, each through "
             "its own ThreadsafeForwardingResult over one target and semaphore: Coq model of the harness scheduler "
             "(acquire / release as yield points), proved to let every call of every thread take effect exactly once "
             "under every schedule, and to reduce to the sequential theorems.",
@@ -826,8 +829,10 @@ import unittest, testtools
 from testtools.testsuite import ConcurrentTestSuite, iterate_tests
 KINDS = %r
 SUITE = %r
-def mk(i, kind):
-    class T(testtools.TestCase):
+def mk(i, spec):
+    style, _, kind = spec.rpartition(":")
+    base = testtools.TestCase if style in ("", "tt") else unittest.TestCase
+    class T(base):
         def id(self): return "t%%03d" %% i
         def test_x(self):
             if kind in ("fail", "xfail"): self.fail("boom")
@@ -835,9 +840,15 @@ def mk(i, kind):
             if kind == "skip": self.skipTest("why")
     if kind in ("xfail", "uxsuccess"):
         T.test_x = unittest.expectedFailure(T.test_x)
+    if style == "deco":                      # skipped by a decorator on the method
+        T.test_x = unittest.skip("why")(T.test_x)
+    if style == "cls":                       # the whole class skipped by a decorator
+        T = unittest.skip("whole class")(T)
+    if style == "clserr":                    # setUpClass fails: an error is reported, no test is started
+        T.setUpClass = classmethod(lambda cls: 1 // 0)
     return T("test_x")
 class NoneSuite(unittest.TestSuite):
-    """like FixtureSuite: run() does not return the result"""
+    \"\"\"like FixtureSuite: run() does not return the result\"\"\"
     def run(self, result):
         super().run(result)
 def test_suite():
@@ -856,10 +867,63 @@ from testtools.run import TestProgram
 class Loader(unittest.TestLoader):
     def loadTestsFromNames(self, names, module=None):
         return self.loadTestsFromName(names[0], module)
-TestProgram(module=None, argv=["prog", "vc04mod.test_suite"], testLoader=Loader(), stdout=sys.stdout)
+TestProgram(module=None, argv=["prog"] + %r + ["vc04mod.test_suite"], testLoader=Loader(), stdout=sys.stdout)
 '''
 GLUE_KINDS = ["pass", "fail", "error", "skip", "xfail", "uxsuccess"]
 GLUE_BAD = ("fail", "error", "uxsuccess")
+# other ways a test can be written / not run: a unittest.TestCase whose outcome arises at run time (ut:), skipped by
+# a decorator on the method (deco:skip) or on the class (cls:skip) - on Python >= 3.12.1 such skips are reported
+# without startTest, so testsRun does not count them -, a class whose setUpClass fails (clserr:error: an error is
+# reported though no test is started; only suites that run class fixtures, i.e. not ConcurrentTestSuite)
+GLUE_STYLED = ["ut:pass", "ut:fail", "ut:error", "ut:skip", "deco:skip", "cls:skip", "clserr:error"]
+
+
+def glue_kind(spec):
+    return spec.rpartition(":")[2]
+
+
+def glue_expect(kinds, suite, selected=None):
+    """(number of problems, least and greatest number of tests the summary may count) for the tests that are
+    selected (all, or those whose id is in the --load-list file)"""
+    nbad = lo = hi = 0
+    for i, spec in enumerate(kinds):
+        if selected is not None and "t%03d" % i not in selected:
+            continue
+        style = spec.rpartition(":")[0]
+        if style == "clserr" and suite == "concurrent":
+            style = "ut"                      # class fixtures are not run: the test method itself runs
+        nbad += glue_kind(spec) in GLUE_BAD
+        if style in ("deco", "cls"):
+            hi += 1                           # counted or not: depends on the Python version
+        elif style != "clserr":
+            lo += 1
+            hi += 1
+    return nbad, lo, hi
+
+
+def selection_runs(tier, rng):
+    """runs in which few or no tests are started: nothing loaded, a --load-list that selects nothing / only the
+    failing / only the passing test, whole classes or methods skipped by decorator, everything skipped at run
+    time, a failing setUpClass with and without other tests - for both verdicts"""
+    runs = [
+        ([], "plain", None), ([], "concurrent", None), ([], "none", None),
+        (["pass", "fail"], "plain", []), (["ut:pass", "error", "uxsuccess"], "none", ["nothing.matches"]),
+        (["pass", "fail"], "plain", ["t001"]), (["pass", "fail", "skip"], "plain", ["t000", "t002"]),
+        (["cls:skip"], "plain", None), (["cls:skip", "cls:skip", "deco:skip"], "concurrent", None),
+        (["deco:skip"], "none", None), (["ut:skip", "skip", "skip"], "plain", None),
+        (["clserr:error"], "plain", None), (["clserr:error"], "none", None),
+        (["cls:skip", "fail"], "plain", None), (["deco:skip", "clserr:error", "cls:skip"], "plain", None),
+        (["cls:skip", "clserr:error", "pass"], "plain", ["t000"]),
+    ]
+    for _ in range(0 if tier == "quick" else 40):
+        kinds = [rng.choice(GLUE_STYLED + ["pass", "skip", "fail"] if rng.random() < 0.7 else
+                            ["cls:skip", "deco:skip", "skip"]) for _ in range(rng.randint(0, 5))]
+        suite = rng.choice(["plain", "plain", "none", "concurrent"])
+        sel = None
+        if suite != "concurrent" and rng.random() < 0.4:
+            sel = ["t%03d" % i for i in range(len(kinds)) if rng.random() < 0.4]
+        runs.append((kinds, suite, sel))
+    return runs
 
 
 def big_runs(tier, rng):
@@ -881,47 +945,56 @@ def big_runs(tier, rng):
 
 def extra_checks(tier, rng):
     n = 12 if tier == "quick" else 60
-    big = big_runs(tier, rng)
-    out = []
-    repo = os.environ.get("VERIF_REPO", "/repo")
-    root = os.path.dirname(os.path.dirname(os.path.dirname(os.path.dirname(os.path.abspath(__file__)))))
-    os.makedirs(os.path.join(root, ".work"), exist_ok=True)
-    for k in range(n + len(big)):
+    samples = []                                  # (kinds, suite, through TestProgram?, --load-list ids or None)
+    for k in range(n):
         suite = ("plain", "concurrent", "none")[k % 3]
-        if k >= n:
-            kinds = big[k - n]
-            suite = ("plain", "concurrent")[k % 2]
-        elif k < 3:
+        if k < 3:
             kinds = ["pass", "skip", "xfail"]          # all good: exit 0 also for suites whose run() returns None (F17)
         elif k < 9:
             kinds = ["pass", ("fail", "error", "uxsuccess", "fail", "uxsuccess", "error")[k - 3]]
         else:
             kinds = [rng.choice(GLUE_KINDS if rng.random() < 0.6 else ["pass", "skip", "xfail"])
                      for _ in range(rng.randint(0, 6))]
-        nbad = sum(1 for x in kinds if x in GLUE_BAD)
+        samples.append((kinds, suite, (k // 3) % 2 == 0, None))
+    for k, kinds in enumerate(big_runs(tier, rng)):
+        samples.append((kinds, ("plain", "concurrent")[k % 2], k % 2 == 1, None))
+    for k, (kinds, suite, sel) in enumerate(selection_runs(tier, rng)):
+        samples.append((kinds, suite, k % 2 == 1, sel))
+    out = []
+    repo = os.environ.get("VERIF_REPO", "/repo")
+    root = os.path.dirname(os.path.dirname(os.path.dirname(os.path.dirname(os.path.abspath(__file__)))))
+    os.makedirs(os.path.join(root, ".work"), exist_ok=True)
+    for kinds, suite, direct, sel in samples:
+        nbad, lo, hi = glue_expect(kinds, suite, None if sel is None else set(sel))
         d = tempfile.mkdtemp(prefix="c04cli", dir=os.path.join(root, ".work"))
         try:
             with open(os.path.join(d, "vc04mod.py"), "w") as f:
                 f.write(MODULE % (kinds, suite))
+            args = []
+            if sel is not None:
+                with open(os.path.join(d, "ids.txt"), "w") as f:
+                    f.write("".join(x + "\n" for x in sel))
+                args = ["--load-list", "ids.txt"]
             env = dict(os.environ, PYTHONPATH=repo + os.pathsep + d)
-            direct = (k // 3) % 2 == 0 if k < n else (k - n) % 2 == 1
             if direct:
                 with open(os.path.join(d, "vc04direct.py"), "w") as f:
-                    f.write(DIRECT)
+                    f.write(DIRECT % (args,))
                 cmd = [sys.executable, "vc04direct.py"]
             else:
-                cmd = [sys.executable, "-m", "testtools.run", "vc04mod.test_suite"]
+                cmd = [sys.executable, "-m", "testtools.run"] + args + ["vc04mod.test_suite"]
             p = subprocess.run(cmd, capture_output=True, text=True, env=env, cwd=d, timeout=120)
             m = _RAN.search(p.stdout)
             want_rc = 1 if nbad else 0        # what the current run.py gives (Model.Result.exit_status)
             # the statement: the status the operating system reports agrees with the verdict - 0 exactly for a
-            # successful run (a negative returncode = killed by a signal never agrees)
+            # successful run, however many tests were started, also none (a negative returncode = killed by a
+            # signal never agrees)
             agrees = (p.returncode == 0) == (nbad == 0) and p.returncode >= 0
-            ok = (agrees and m is not None and int(m.group(1)) == len(kinds)
+            ok = (agrees and m is not None and lo <= int(m.group(1)) <= hi
                   and ((m.group(2) == "OK") == (nbad == 0)) and (nbad == 0 or int(m.group(3)) == nbad))
             shown = kinds if len(kinds) <= 12 else dict((x, kinds.count(x)) for x in sorted(set(kinds)))
             out.append({"ok": ok, "suite": suite, "how": "TestProgram, suite passed as loaded" if direct else
-                        "python -m testtools.run", "kinds": shown, "problems": nbad,
+                        "python -m testtools.run", "kinds": shown, "load_list": sel, "problems": nbad,
+                        "tests_counted": [lo, hi],
                         "exit_status": p.returncode, "expected": "0" if nbad == 0 else "not 0",
                         "as_the_model": p.returncode == want_rc,
                         "summary": m.group(0) if m else None, "stderr": p.stderr[-300:]})
